@@ -386,6 +386,66 @@ theorem C18_round_down (h : F.WF) {mant : Nat} {exp : Int} (hm : 2 ^ 63 ≤ mant
   · exact Nat.le_refl _
   · exact Nat.le_succ _
 
+/-- General callback form: for ANY decision callback, the packed result is the truncated pattern plus
+    the callback's decision, evaluated on (is_odd, is_halfway, is_above) of quotient / remainder of
+    `mant / 2^t`, `t = specShift F exp` (saturated at infinity).  (h) and (k) are instances. -/
+theorem C18_round_callback (h : F.WF) {mant : Nat} {exp : Int} (hm : 2 ^ 63 ≤ mant) (hm' : mant < 2 ^ 64)
+    (hexp : -63 ≤ exp) (cb : RoundCb) :
+    extendedToFloat F (round F (roundNearestTieEven cb) ⟨mant, exp⟩) =
+      min (rneTrunc F.fmt (ofDyadic mant (exp - F.exponentBias)) +
+            (if cb (mant / 2 ^ specShift F exp % 2 == 1)
+                   (mant % 2 ^ specShift F exp == 2 ^ (specShift F exp - 1))
+                   (decide (mant % 2 ^ specShift F exp > 2 ^ (specShift F exp - 1))) then 1 else 0))
+          F.fmt.infBits := by
+  obtain ⟨h1, h64⟩ := specShift_bounds h hexp
+  rw [rneTrunc_ofDyadic h hm hm']
+  have := round_pack h hm hm' (roundNearestTieEven cb) _
+    (by rw [Nat.min_eq_left h64]; exact roundNearestTieEven_eq cb exp h1 h64 hm')
+    (Nat.le_add_right _ _) (by split <;> omega)
+  rw [this]
+  split <;> omega
+
+/-- the callback's `is_odd` flag is the parity of the truncated pattern `b` (when `b` is finite) -/
+theorem rneTrunc_parity (h : F.WF) {mant : Nat} {exp : Int} (hm : 2 ^ 63 ≤ mant) (hm' : mant < 2 ^ 64)
+    (hfin : rneTrunc F.fmt (ofDyadic mant (exp - F.exponentBias)) < F.fmt.infBits) :
+    rneTrunc F.fmt (ofDyadic mant (exp - F.exponentBias)) % 2 = mant / 2 ^ specShift F exp % 2 := by
+  rw [rneTrunc_ofDyadic h hm hm'] at hfin ⊢
+  have hp : 2 ^ F.mantissaSize = 2 * 2 ^ (F.mantissaSize - 1) := by
+    rw [Nat.mul_comm, ← Nat.pow_succ]; congr 1; have := h.ms_pos; omega
+  have : min (mant / 2 ^ specShift F exp + expOff F exp * 2 ^ F.mantissaSize) F.fmt.infBits
+      = mant / 2 ^ specShift F exp + expOff F exp * 2 ^ F.mantissaSize := by omega
+  rw [this, hp, ← Nat.mul_assoc, Nat.mul_comm _ 2, Nat.mul_assoc, Nat.add_mul_mod_self_left]
+
+theorem rneTrunc_le_inf (f : Fmt) (v : Q) : rneTrunc f v ≤ f.infBits := by
+  unfold rneTrunc
+  have : 0 ≤ f.infBits := Nat.zero_le _
+  split
+  · exact this
+  · exact Nat.min_le_right _ _
+
+/-- Slow-path callback `cbOrdering ord` (comparison of the true digits against `b + h`): the result is
+    `b` for `Less`, `b + 1` for `Greater`, and the even one of the two for `Equal`. -/
+theorem C18_round_ordering (h : F.WF) {mant : Nat} {exp : Int} (hm : 2 ^ 63 ≤ mant) (hm' : mant < 2 ^ 64)
+    (hexp : -63 ≤ exp) (ord : Ordering) :
+    extendedToFloat F (round F (roundNearestTieEven (cbOrdering ord)) ⟨mant, exp⟩) =
+      min (rneTrunc F.fmt (ofDyadic mant (exp - F.exponentBias)) +
+            (match ord with
+              | .gt => 1
+              | .lt => 0
+              | .eq => rneTrunc F.fmt (ofDyadic mant (exp - F.exponentBias)) % 2))
+          F.fmt.infBits := by
+  rw [C18_round_callback h hm hm' hexp]
+  have hle := rneTrunc_le_inf F.fmt (ofDyadic mant (exp - F.exponentBias))
+  cases ord
+  · simp [cbOrdering]
+  · simp only [cbOrdering]
+    rcases Nat.lt_or_ge (rneTrunc F.fmt (ofDyadic mant (exp - F.exponentBias))) F.fmt.infBits with hf | hf
+    · rw [rneTrunc_parity h hm hm' hf]
+      have := Nat.mod_two_eq_zero_or_one (mant / 2 ^ specShift F exp)
+      rcases this with h0 | h0 <;> simp [h0]
+    · rw [Nat.min_eq_right (by omega), Nat.min_eq_right (by omega)]
+  · simp [cbOrdering]
+
 /-- **(k)** slow-path variant: the callback's decision replaced by an arbitrary `d`.  The result is
     the truncated pattern `b` or its successor `b + 1` (saturated at infinity). -/
 theorem C18_round_decision (h : F.WF) {mant : Nat} {exp : Int} (hm : 2 ^ 63 ≤ mant) (hm' : mant < 2 ^ 64)
@@ -474,5 +534,13 @@ example : extendedToFloat Gen.F32 (round Gen.F32 roundDown ⟨2 ^ 64 - 1, 150 - 
 -- hypotheses of (k) are satisfiable and the successor is produced
 example : extendedToFloat Gen.F64 (round Gen.F64 (roundNearestTieEven (fun _ _ _ => true)) ⟨2 ^ 63, 1012⟩)
     = 0x3FF0000000000001 := by decide +kernel
+-- tie broken to even by the `Equal` ordering: b = 1.0 is even, stays
+example : extendedToFloat Gen.F64 (round Gen.F64 (roundNearestTieEven (cbOrdering .eq)) ⟨2 ^ 63 + 2 ^ 10, 1012⟩)
+    = 0x3FF0000000000000 := by decide +kernel
+example : rneTrunc Fmt.f64 (ofDyadic (2 ^ 63 + 2 ^ 11) (1012 - 1075)) = 0x3FF0000000000001 := by decide +kernel
+-- … and b odd goes up
+example : extendedToFloat Gen.F64 (round Gen.F64 (roundNearestTieEven (cbOrdering .eq)) ⟨2 ^ 63 + 2 ^ 11, 1012⟩)
+    = 0x3FF0000000000002 :=
+  (C18_round_ordering F64_WF (by decide) (by decide) (by decide) .eq).trans (by decide +kernel)
 
 end MinLex
